@@ -4,6 +4,7 @@ Model: `optionFromUint`/`optionToUint` (Model/Uint.lean), `strEnc`/`strDec`
 (Model/Str.lean), typed accessors (Model/Packet.lean, Model/Str.lean).
 Spec: `Spec.minimalBE`.
 -/
+import CoapLite.Lemmas.Shape.Api
 import CoapLite.Model.Str
 import CoapLite.Lemmas.Uint
 import CoapLite.Lemmas.CodecFwd
@@ -181,5 +182,12 @@ theorem state_shape_matches_source :
     Shapes.header = [("code", "MessageClass"), ("message_id", "u16"), ("ver_type_tkl", "u8")] ∧
     Shapes.headerRaw = [("code", "u8"), ("message_id", "u16"), ("ver_type_tkl", "u8")] :=
   ⟨ShapeTie.no_global_state, ShapeTie.packet, ShapeTie.header, ShapeTie.headerRaw⟩
+
+/-- the public entry points of the modelled source files – re-read from /repo/src on every run – are
+exactly the ones the model was written against (`Lemmas/Shape/Api.lean`): a new public way to change the
+state this property is about, or a receiver that became `&mut self`, breaks this theorem -/
+theorem api_surface_matches_source :
+    Shapes.apiPacket = ShapeTie.expectedApiPacket :=
+  ShapeTie.apiPacket
 
 end CoapLite.C06
